@@ -13,6 +13,7 @@ from zope.interface import (
     implementedBy, implementer, implementer_only, provider)
 from zope.interface import declarations as _decl
 from zope.interface.interface import InterfaceClass
+from .common import wmod, newworld
 
 IF_BASES = {'I0': (), 'I1': ('I0',), 'I2': ()}
 IF_NAMES = list(IF_BASES)
@@ -155,15 +156,16 @@ class World:
         # worlds of earlier histories are dead; their shared declarations are
         # keyed by dead classes and cannot be hit again, but they cost time
         _decl.InstanceDeclarations.clear()
+        newworld()
         self.I = {}
         for n in IF_NAMES:
             self.I[n] = InterfaceClass(
                 n, tuple(self.I[b] for b in IF_BASES[n]) or (Interface,),
-                {'__module__': 'w'})
+                {'__module__': wmod()})
         self.K = {}
         for n, bs in cl_bases.items():
             self.K[n] = type(n, tuple(self.K[b] for b in bs) or (object,),
-                             {'__module__': 'w'})
+                             {'__module__': wmod()})
         self.O = {o: self.K[k]() for o, k in objs.items()}
         self.L = Model(True, cl_bases, objs)
         self.U = Model(False, cl_bases, objs)
@@ -215,7 +217,7 @@ class World:
             O[op[1]] = K[self.L.objs[op[1]]]()
             gc.collect()
         elif t == 'newsub':
-            K['E'] = type('E', (K[op[1]],), {'__module__': 'w'})
+            K['E'] = type('E', (K[op[1]],), {'__module__': wmod()})
             O['e'] = K['E']()
         elif t == 'newinst':
             O['n'] = K[op[1]]()
